@@ -32,14 +32,17 @@
                nodes are deleted; earliest + 1.
    A stored value is abstracted to the id of the node it encodes.  The tree of a root is ghost
    state: the list of (position, node id) of its non-root, non-attached nodes, supplied by the
-   history. Not modelled: write logs, multipart restore, namespaces. *)
+   history: the list of (position, node id) of its stored nodes - the non-root nodes a reader
+   fetches plus the stand-alone copies of attached leaves this batch wrote (a dirty attached leaf
+   is numbered and stored as well, commit.go:192-195 / node.go:218-251) - and the positions the
+   batch reported removed (RemoveNodes and VisitCleanNode). Not modelled: write logs, multipart restore, namespaces. *)
 From Verif Require Import Lib.Base NodeDB.Spec.
 
 Definition pos := (N * N)%type.                       (* node version, index *)
 Definition tree := list (pos * N).                    (* position, node id *)
 
 Inductive pop :=
-| PCommit (ver typ rid : N) (old : option (N * N)) (writes : list (N * N)) (t : tree)
+| PCommit (ver typ rid : N) (old : option (N * N)) (writes : list (N * N)) (t : tree) (rem : list pos)
 | PFinalize (ver : N) (rids : list N)
 | PPrune (ver : N).
 
@@ -135,7 +138,7 @@ Definition p_last_geb (d : pdb) (v : N) : bool :=
 
 (* ---- Commit: tree.Commit = NewBatch + Batch.Commit ---- *)
 Definition p_commit (d : pdb) (ver typ rid : N) (old : option (N * N)) (writes : list (N * N)) (t : tree)
-  : eclass * pdb :=
+           (rem : list pos) : eclass * pdb :=
   let follows := match old with Some (over, _) => (ver =? over) || (ver =? over + 1) | None => true end in
   let old_nonempty := match old with Some (_, orid) => negb (is_empty_rid orid) | None => false end in
   (* applying writes dereferences the old root first (GetNode: earliest, root node) *)
@@ -161,7 +164,7 @@ Definition p_commit (d : pdb) (ver typ rid : N) (old : option (N * N)) (writes :
     else
       let old_g := match old with Some (over, orid) => ghost_of d over orid | None => mkproot typ [] [] end in
       let written := filter (fun e => fst (fst e) =? ver) t in
-      let removed := filter (fun p => negb (pmem p (map fst t))) (map fst (pr_tree old_g)) in
+      let removed := rem in
       let fin' := if s =? 0
                   then map (fun e => ((typ, fst e), ver, Some (snd e))) written ++ p_fin d
                   else p_fin d in
@@ -243,7 +246,7 @@ Definition p_prune (d : pdb) (ver : N) : eclass * pdb :=
 
 Definition p_step (d : pdb) (o : pop) : eclass * pdb :=
   match o with
-  | PCommit ver typ rid old ws t => p_commit d ver typ rid old ws t
+  | PCommit ver typ rid old ws t rem => p_commit d ver typ rid old ws t rem
   | PFinalize ver rids => p_finalize d ver rids
   | PPrune ver => p_prune d ver
   end.
@@ -252,18 +255,18 @@ Definition p_run (d : pdb) (h : list pop) : pdb := fold_left (fun d o => snd (p_
 
 (* ---- observations (same shape as Spec.obs; commits only accepted / rejected) ---- *)
 Definition p_known_step (k : list (N * N)) (o : pop) : list (N * N) :=
-  match o with PCommit ver _ rid _ _ _ => add_known k ver rid | _ => k end.
+  match o with PCommit ver _ rid _ _ _ _ => add_known k ver rid | _ => k end.
 
 Definition p_norm (o : pop) (e : eclass) : eclass :=
   match o, e with
-  | PCommit _ _ _ _ _ _, EOk => EOk
-  | PCommit _ _ _ _ _ _, _ => EOther
+  | PCommit _ _ _ _ _ _ _, EOk => EOk
+  | PCommit _ _ _ _ _ _ _, _ => EOther
   | _, e => e
   end.
 
 Definition p_commit_cont (d : pdb) (o : pop) (e : eclass) : contents :=
   match o, e with
-  | PCommit ver _ rid _ _ _, EOk =>
+  | PCommit ver _ rid _ _ _ _, EOk =>
       if p_status d ver rid =? 1 then (if is_empty_rid rid then [] else pr_cont (ghost_of d ver rid)) else []
   | _, _ => []
   end.
